@@ -184,6 +184,21 @@ def explore_item(item, r: common.Result, only_history=None):
         return {"family": fam, "program": ptext, "files": files, "history": [list(o) for o in h], "depth": item["depth"]}
 
     def check(h, st):
+        check_on(h, st, "fresh")
+        if h:
+            # the same history on one live instance that is READ after every operation (as a front end does): the
+            # invariant must hold there too (stale memoised selections / member values)
+            live = impl.Inst(files)
+            try:
+                for op in h:
+                    impl.apply_op(live, op)
+                    live.obs()
+                    live.choice_obs()
+            except Exception:  # noqa: BLE001 -- reported by the fresh path's on_raise
+                return
+            check_on(h, live, "read_after_every_op")
+
+    def check_on(h, st, mode):
         r.evals += 1
         ref = refsem.RefState(model)
         for op in h:
@@ -209,12 +224,12 @@ def explore_item(item, r: common.Result, only_history=None):
             if cvis and mvis:
                 if len(ys) != 1:
                     r.violation(
-                        {"kind": "not_exactly_one", "family": fam, "count": len(ys)},
+                        {"kind": "not_exactly_one", "family": fam, "count": len(ys), "mode": mode},
                         f"[{fam}] after {fmt(h)}: visible choice with visible members {mvis} has members at y: {ys}",
                         case_of(h),
                     )
             if not cvis and ys:
-                r.violation({"kind": "invisible_choice_has_y", "family": fam}, f"[{fam}] after {fmt(h)}: invisible choice has {ys} at y", case_of(h))
+                r.violation({"kind": "invisible_choice_has_y", "family": fam, "mode": mode}, f"[{fam}] after {fmt(h)}: invisible choice has {ys} at y", case_of(h))
             if cvis != ev.choice_vis(ci.idx):
                 r.violation({"kind": "choice_visibility", "family": fam}, f"[{fam}] after {fmt(h)}: choice visibility {cvis}, reference {ev.choice_vis(ci.idx)}", case_of(h))
             sel = ch.selection
@@ -222,21 +237,23 @@ def explore_item(item, r: common.Result, only_history=None):
             if seln != exp_sel or ys != ([exp_sel] if exp_sel else []):
                 why = "pick" if ci.idx in ref.picks else "default"
                 r.violation(
-                    {"kind": "wrong_member", "family": fam, "expected_from": why, "last_op": h[-1][0] if h else "init"},
+                    {"kind": "wrong_member", "family": fam, "expected_from": why, "last_op": h[-1][0] if h else "init", "mode": mode},
                     f"[{fam}] after {fmt(h)}: selection {seln} / members at y {ys}, documented rule gives {exp_sel} (pick={ref.picks.get(ci.idx)})",
                     case_of(h),
                 )
+            if mode != "fresh":
+                continue  # the generators read through the same properties; their agreement is checked on the fresh path
             if outs is None:
                 outs = outputs_members(st)
             for fmt_name, present in outs.items():
                 got = sorted(m for m in members if m in present)
                 if got != ys:
                     r.violation(
-                        {"kind": "output_disagrees", "format": fmt_name, "family": fam},
+                        {"kind": "output_disagrees", "format": fmt_name, "family": fam, "mode": mode},
                         f"[{fam}] after {fmt(h)}: {fmt_name} defines members {got}, values say {ys}",
                         case_of(h),
                     )
-        if nontrivial:
+        if nontrivial and mode == "fresh":
             r.outcome((ptext, canon(st)))
 
     def on_raise(h, e):
